@@ -5,9 +5,9 @@ import vlib
 ARITY = {}
 for g in "var lit big err true false none nil arr0".split():
     ARITY[g] = 0
-for g in "lam1 lam2 lam11 eff effm prx pry some".split():
+for g in "lam1 lam2 lam11 eff effm prx pry prxn pryn prxa prya some".split():
     ARITY[g] = 1
-for g in "add sub mul div let letu app1 papp lt eq and or mkr upd mkp mtup mrec mpart cons arr2 idx".split():
+for g in "add sub mul div let letu app1 papp lt eq and or mkr mkrs upd mkp mtup mrec mpart cons arr2 idx".split():
     ARITY[g] = 2
 for g in "if app2 mopt recf".split():
     ARITY[g] = 3
@@ -71,6 +71,90 @@ def render(p, prim=False, bare=False):
     _e(o, tree, 0, 0)
     o.w("\n")
     return o.text()
+
+
+def render_block(p, prim=False):
+    """the same program in the indentation-only (offside) layout: the outer spine of bindings, conditionals, matches,
+    lambdas and recursive functions is written without `in`, parentheses or explicit blocks - one construct per line,
+    bodies indented by four columns - and only the leaves use the parenthesised one-line form"""
+    tree, _ = parse(p)
+    o = _Out()
+    _PRIM[0] = prim
+    _BARE[0] = False
+    o.w(PREAMBLE_NOPRELUDE if prim else PREAMBLE)
+    _b(o, tree, 0, 0)
+    o.w("\n")
+    return o.text()
+
+
+def _b(o, n, depth, ind):
+    """block form of node n, the cursor is at column `ind` of a fresh line (or right after a keyword on it)"""
+    g, a, t, k = n
+    if g in ("let", "letu"):
+        o.w("let v%d = " % (depth + 1) if g == "let" else "let _ = ")
+        rhs = k[0]
+        if rhs[0] in ("if", "mtup", "mrec", "mopt", "mpart", "mlit", "mlist", "mlistd", "mopt3", "let", "letu"):
+            # a right-hand side which is itself a block starts on its own line
+            o.nl(ind + 4)
+            _b(o, rhs, depth, ind + 4)
+        else:
+            _e(o, rhs, depth, max(ind, o.col))
+        o.nl(ind)
+        _b(o, k[1], depth + (1 if g == "let" else 0), ind)
+        return
+    if g == "if":
+        o.w("if "); _e(o, k[0], depth, max(ind, o.col)); o.w(" then")
+        o.nl(ind + 4); _b(o, k[1], depth, ind + 4)
+        o.nl(ind); o.w("else")
+        o.nl(ind + 4); _b(o, k[2], depth, ind + 4)
+        return
+    if g in ("mtup", "mrec", "mopt", "mpart", "mlit", "mlist", "mlistd", "mopt3"):
+        o.w("match "); _e(o, k[0], depth, max(ind, o.col)); o.w(" with")
+        d1, d2 = depth + 1, depth + 2
+        if g == "mtup":
+            alts = [("(v%d, v%d)" % (d1, d2), k[1], depth + 2)]
+        elif g == "mrec":
+            alts = [("{ x = v%d, y = v%d }" % (d1, d2), k[1], depth + 2)]
+        elif g == "mopt":
+            alts = [("Some v%d" % d1, k[1], depth + 1), ("None", k[2], depth)]
+        elif g == "mpart":
+            alts = [("Some v%d" % d1, k[1], depth + 1)]
+        elif g == "mlit":
+            alts = [("0", k[1], depth), ("1", k[2], depth), ("_", k[3], depth)]
+        elif g == "mlistd":
+            alts = [("C v%d (C v%d _)" % (d1, d2), k[1], depth + 2), ("C v%d N" % d1, k[2], depth + 1), ("_", k[3], depth)]
+        elif g == "mopt3":
+            alts = [("Some 0", k[1], depth), ("Some v%d" % d1, k[2], depth + 1), ("_", k[3], depth)]
+        else:
+            alts = [("C v%d (C v%d _)" % (d1, d2), k[1], depth + 2), ("C v%d N" % d1, k[2], depth + 1), ("N", k[3], depth)]
+        for i, (pat, body, d) in enumerate(alts):
+            o.nl(ind)
+            o.w("| %s ->" % pat)
+            if i % 2 == 0:
+                o.nl(ind + 4); _b(o, body, d, ind + 4)
+            else:
+                o.w(" "); _e(o, body, d, max(ind, o.col))      # an alternative on the line of its pattern
+        return
+    if g in ("lam1", "lam11", "lam2"):
+        ty = {"lam1": "Int -> Int", "lam11": "Int -> Int -> Int", "lam2": "Int -> Int -> Int"}[g]
+        params = "v%d" % (depth + 1) if g != "lam2" else "v%d v%d" % (depth + 1, depth + 2)
+        o.w("let fn : %s = \\%s ->" % (ty, params))
+        nd = depth + (2 if g == "lam2" else 1)
+        o.nl(ind + 4); _b(o, k[0], nd, ind + 4)
+        o.nl(ind); o.w("fn")
+        return
+    if g == "recf":
+        f, nn, rr = depth + 1, depth + 2, depth + 3
+        lt = "#Int<" if _PRIM[0] else "<"
+        o.w("rec let v%d v%d : Int -> Int =" % (f, nn))
+        o.nl(ind + 4); o.w("if (v%d %s 1) || (3 %s v%d) then" % (nn, lt, lt, nn))
+        o.nl(ind + 8); _b(o, k[0], depth + 2, ind + 8)
+        o.nl(ind + 4); o.w("else")
+        o.nl(ind + 8); o.w("let v%d = v%d (v%d %s 1)" % (rr, f, nn, "#Int-" if _PRIM[0] else "-"))
+        o.nl(ind + 8); _b(o, k[1], depth + 3, ind + 8)
+        o.nl(ind); _b(o, k[2], depth + 1, ind)
+        return
+    _e(o, n, depth, max(ind, o.col) if o.col > ind else ind)
 
 
 def _e(o, n, depth, ctx):
@@ -137,6 +221,14 @@ def _e(o, n, depth, ctx):
         o.w("False"); return
     if g == "mkr":
         o.w("{ x = "); E(k[0]); o.w(", y = "); E(k[1]); o.w(" }"); return
+    if g == "mkrs":
+        o.w("{ y = "); E(k[0]); o.w(", x = "); E(k[1]); o.w(" }"); return
+    if g in ("prxn", "pryn"):
+        o.w("((\\r -> r.%s) " % g[2]); E(k[0]); o.w(")"); return
+    if g in ("prxa", "prya"):
+        o.w("(let r : { x : Int, y : Int } = ")
+        c = max(ctx, o.col)
+        _e(o, k[0], depth, c); o.w(" in r.%s)" % g[2]); return
     if g == "upd":
         o.w("{ x = "); E(k[0]); o.w(", .. "); E(k[1]); o.w(" }"); return
     if g in ("prx", "pry"):
@@ -265,7 +357,7 @@ def write_cfg(name, size, prods, roots=("I",), scope=3, emit=True, mutations=0):
 
 FOCUS = {
     "calls": "var lit add if let app1 app2 papp lam1 lam2 lam11 eff true lt recf err".split(),
-    "data": "var lit add let mkr upd prx pry mkp mtup mrec none some mopt mopt3 mpart mlit nil cons mlist mlistd arr0 arr2 idx eff err".split(),
+    "data": "var lit add let mkr mkrs upd prx pry prxn pryn prxa prya mkp mtup mrec none some mopt mopt3 mpart mlit nil cons mlist mlistd arr0 arr2 idx eff err".split(),
     "arith": "var lit big add sub mul div if lt eq and or true false let letu eff effm err".split(),
     "effects": "var lit add let letu eff effm app1 lam1 papp lam2 mkr prx if true and or err div big mul".split(),
 }
@@ -346,10 +438,20 @@ def dead_lets(p):
     return bool(found)
 
 
+def rep_src(o):
+    return render(o["p"])
+
+
 def judge(V, o, r, tag="", stats=None):
     """compares one result with the model outcome; returns True if it agreed (or differs only as permitted)"""
     kind, val, log = expected(o)
     feats = ",".join(f for f in features(o["p"]) if f in ("recf", "app2", "papp", "lam11", "mlist", "upd", "idx", "mpart", "effm", "big"))
+    if any(n[0] in ("prxa", "prya") for n in o["p"]) and r["status"] not in ("panic", "crash", "hang") and observed_tuple(r) != (kind, val, log):
+        # a record literal written { y = .., x = .. } bound under the annotation { x : Int, y : Int } reads the wrong
+        # field (recorded finding); what the wrong number does downstream (another value, an overflow, another branch)
+        # is one and the same disagreement
+        V.violation("%sswapped-record-under-annotation" % tag, "model: %s, VM: %s\n%s" % ((kind, val, log), observed_tuple(r), rep_src(o)), {"p": o["p"], "src": rep_src(o), "expected": [kind, val, log], "observed": r})
+        return False
     rep = {"p": o["p"], "src": render(o["p"]), "expected": [kind, val, log], "observed": r, "alts": o.get("alts", [])}
     if r["status"] in ("panic", "crash", "hang"):
         where = r.get("panic_at") or r["msg"][:80]
